@@ -607,6 +607,45 @@ def r9_boundary_grid_shares(repo: Repo, rep):
         rep.undecided(R, fi.site(), fi.fq, "a second pass with rescaled requests on both operand boundaries", "not found")
 
 
+def r11_inside_grid_request(repo: Repo, rep):
+    R = rep.rule("R-C11-11", "the second grid of a cut / intersection is requested with the proportional estimate int(n * n / number kept) - no inflation factor: the surplus is cut "
+                 "from the END of an ordered grid (decided by evaluating the helper on row-count models for several (n, kept) pairs)", floor=1,
+                 why="asking for 20 % more and cutting to n removes the last rows of a lattice / the outer ring of a sunflower grid: those cells stay empty")
+    from .c02 import grid_helper_evaluator
+    from ..absdom.listeval import NotEval
+    evaluate, Need, Loud, Pts, helper = grid_helper_evaluator(repo)
+    fi = helper.functions.get("_inside_grid_with_n")
+    if fi is None:
+        raise AnalysisError("_inside_grid_with_n vanished")
+    rep.saw(fi)
+    bad, unknown, done = [], None, 0
+    for n, kept in ((12, 8), (10, 4), (9, 2), (20, 19), (7, 3), (30, 7)):
+        for invert in (False, True):
+            first = kept if not invert else n - kept  # rows the membership in b keeps; the helper negates the mask when invert is set
+            try:
+                fr, zero, req = evaluate(fi, n, [first, 0], {"invert": invert})
+            except Need:
+                unknown = f"n={n}, kept={kept}: more than two membership tests"
+                break
+            except (NotEval, Loud, ZeroDivisionError) as ex:
+                unknown = f"n={n}, kept={kept}: {ex}"
+                break
+            grids = [m for tag, meth, m in req if tag == "a" and meth == "sample_grid"]
+            if len(grids) < 2 or grids[0] != n:
+                unknown = f"n={n}, kept={kept}: grid requests {grids}"
+                break
+            done += 1
+            want = (n * n) // kept
+            if grids[1] != want:
+                bad.append((n, kept, grids[1], want))
+    if unknown is not None and not bad:
+        rep.undecided(R, fi.site(), fi.fq, "second grid request evaluable", unknown[:160])
+        return
+    w = bad[0] if bad else None
+    rep.check(R, not bad and done > 0, fi.site(), fi.fq, "second request == int(n^2 / kept) for every instantiated (n, kept)",
+              f"n={w[0]}, {w[1]} kept: requests {w[2]} instead of {w[3]}" if w else f"{done} instantiations", f"second request {w[2]} vs {w[3]} (n={w[0]}, kept={w[1]})" if w else "ok")
+
+
 def r10_weighted_second_factor(repo: Repo, rep):
     R = rep.rule("R-C11-10", "dependent product: every value of the second factor enters through the volume-weighted acceptance (_sample_uniform_b_points), also the ones that fill a shortfall", floor=1,
                  why="values drawn directly from the second factor are uniform in b instead of proportional to the measure of the slice A(b)")
@@ -636,6 +675,9 @@ def r10_weighted_second_factor(repo: Repo, rep):
 def run(repo: Repo, rep):
     r10_weighted_second_factor(repo, rep)
     r9_boundary_grid_shares(repo, rep)
+    r11_inside_grid_request(repo, rep)
+    from .c10 import r1_r2_formulas  # mixture weights and the acceptance of dependent products use the measures: a signed / wrong volume shifts the point density between members
+    r1_r2_formulas(repo, rep)
     r6b_dependency_flags(repo, rep)
     from .c02 import r9_motion_params  # a row's points are the uniformly sampled inner points moved with THAT row's motion
     r9_motion_params(repo, rep)
